@@ -238,6 +238,9 @@ structure Hdr where
   /-- Version Negotiation: lists the version in use / first common version exists -/
   vnHasCurrent : Bool := false
   vnHasCommon : Bool := false
+  /-- Version Negotiation: `header.source_cid == self._peer_cid.cid` (RFC 9000 §17.2.1: the
+      packet echoes the Destination Connection ID of our Initial) -/
+  vnEcho : Bool := false
   deriving Repr
 
 /-- decrypt oracle (`crypto.decrypt_packet`) -/
@@ -316,7 +319,7 @@ def recvPacket {π : Type} (runPayload : St → Epoch → Bool → π → St × 
     else if (s.isClient ∨ h.ptype = .handshake) ∧ ¬ h.dcidKnown then .stop s pr none
     else if h.ptype = .versionNegotiation then
       -- _receive_version_negotiation_packet
-      if s.isClient ∧ s.state = .firstflight ∧ ¬ s.vnDone then
+      if s.isClient ∧ s.state = .firstflight ∧ ¬ s.vnDone ∧ h.vnEcho then
         if h.vnHasCurrent then .stop s pr none
         else if ¬ h.vnHasCommon then .stop ({ s with closeEvent := some 1 }).closeEnd true none
         else .stop ({ s with vnDone := true }).reconnect true none
